@@ -93,6 +93,14 @@ def cases(tier, seed):
         d = rng.choice((2, 3, 3, 4))
         pqr = rng.choice(pat.pqr_all(d))
         out.append(dict(kind='concrete', cfg=dict(p=pqr[0], q=pqr[1], r=pqr[2], basis=pat.random_basis(pqr, rng)), products=(d <= 3)))
+    # custom bases whose labels do NOT start at the default start index (0 for r == 1, else 1)
+    for i in range(24 if tier == 'quick' else 150):
+        d = rng.choice((2, 2, 3, 3, 4))
+        pqr = rng.choice([x for x in pat.pqr_all(d) if sum(1 for v in x if v) >= 2 or rng.random() < 0.3] or pat.pqr_all(d))
+        default = 0 if pqr[2] == 1 else 1
+        si = rng.choice([s_ for s_ in (0, 1, 2, 3, 7) if s_ != default])
+        basis = pat.random_basis(pqr, rng, start_index=si)
+        out.append(dict(kind='concrete', cfg=dict(p=pqr[0], q=pqr[1], r=pqr[2], basis=basis), products=(d <= 3), expect_start=si))
     return out
 
 
@@ -109,10 +117,14 @@ def _build_sym_alg(desc, V):
         if desc.get('named'):
             alg = Algebra.fromname(desc['named'])
         else:
-            kw = dict(signature=[1] * d, start_index=desc['start_index'])
+            kw = dict(signature=[1] * d)
             if desc.get('basis'):
-                kw['basis'] = list(desc['basis'])
+                kw['basis'] = list(desc['basis'])      # start index must be inferred from the labels
+            else:
+                kw['start_index'] = desc['start_index']
             alg = Algebra(**kw)
+            if alg.start_index != desc['start_index']:
+                return None, ('start-index', alg.start_index)
         if not hasattr(alg, '_prepare_signs'):
             return None, names_sig
         arr = np.empty(d, dtype=object)
@@ -128,15 +140,19 @@ def _build_sym_alg(desc, V):
         base = Algebra.fromname(desc['named'])
         alg = Algebra(signature=sig, basis=list(base.basis), start_index=0)
     else:
-        kw = dict(signature=sig, start_index=desc['start_index'])
+        kw = dict(signature=sig)
         if desc.get('basis'):
             kw['basis'] = list(desc['basis'])
+        else:
+            kw['start_index'] = desc['start_index']
         alg = Algebra(**kw)
     return alg, sig
 
 
 def _run_symtable(desc, V):
     alg, sig = _build_sym_alg(desc, V)
+    if alg is None and isinstance(sig, tuple) and sig[0] == 'start-index':
+        return [Fail('start-index', f'custom basis with labels starting at {desc["start_index"]}: the algebra uses start_index={sig[1]}', fkey='symtable|start-index')]
     if alg is None:
         return [Note('symtable', 'Algebra._prepare_signs not available (refactored?); symbolic-signature route skipped, concrete route (d) still runs')]
     d = desc['d']
@@ -200,6 +216,8 @@ def _parse_cayley(s):
 
 def _run_concrete(desc, V):
     alg = make_alg(desc['cfg'])
+    if desc.get('expect_start') is not None and alg.start_index != desc['expect_start']:
+        return [Fail('start-index', f'basis labels start at {desc["expect_start"]} but the algebra uses start_index={alg.start_index}', fkey='concrete|start-index')]
     km = KMap(alg)
     R = km.ref
     d = alg.d
